@@ -3,6 +3,7 @@ package html
 import (
 	"sort"
 	"strings"
+	"sync"
 
 	"code.gopub.tech/errors"
 )
@@ -13,6 +14,7 @@ type Tag struct {
 	Attrs  []*Attr
 	sorted int
 	attrs  map[string]*Attr
+	mu     sync.Mutex // 保护 AttrMap/SortedAttr 的延迟初始化 模板可能被并发执行
 }
 
 // AddAttr 保存属性
@@ -31,6 +33,8 @@ func (t *Tag) AddAttr(attr *Attr) error {
 
 // AttrMap 构造属性 Map 用于快速查找
 func (t *Tag) AttrMap() map[string]*Attr {
+	t.mu.Lock()
+	defer t.mu.Unlock()
 	if t.attrs == nil || len(t.attrs) != len(t.Attrs) {
 		m := make(map[string]*Attr, len(t.Attrs))
 		for _, attr := range t.Attrs {
@@ -45,6 +49,8 @@ func (t *Tag) AttrMap() map[string]*Attr {
 // 各指令属性中再按 if, range, remove 顺序
 // 其他属性按出现先后不变
 func (t *Tag) SortedAttr(prefix string) []*Attr {
+	t.mu.Lock()
+	defer t.mu.Unlock()
 	if t.sorted != len(t.Attrs) {
 		weight := map[string]int{
 			attrWith:    -4,
